@@ -5,6 +5,13 @@ from fractions import Fraction
 from pyvc.api import REGISTRY
 
 P = REGISTRY.prop("C15")
+
+from contracts import c02 as _c02   # noqa: registers the C02 harnesses
+
+# every lunar finder hands its instant back as Epoch(jde): the constructor decodes the number with get_full_date() and re-encodes it with _compute_jde(); that Epoch(jde).jde() == jde
+# is proved under C01/C02 and assumed by every clause here, so those obligations are run under this property too
+P.include("C02", ["get_date/fractional", "_compute_jde/fractional-day", "get_full_date/fields-and-roundtrip", "input-forms/same-JDE"],
+          only={"input-forms/same-JDE": [dict(form="number")]})
 P.notes["level"] = "exploration"   # proved sub-obligations (selection arithmetic, structure); the clauses are bounded
 P.notes["rule"] = ("position: one case per epoch (every calendar day of sample years in both calendars, leap days of Julian "
                    "century years included, + seeded epochs in -2000..4000); finders: one case per (finder, target, query day); "
